@@ -274,6 +274,12 @@ class Peer:
             await asyncio.sleep(d)
         else:
             await asyncio.sleep(0)
+        # the order in which suspended awaiters resume is part of the history
+        if self.mode == 'ref':
+            self.ref_hits.append(('~' + pid, n))
+        else:
+            self.hits.append(('~' + pid, n))
+            LOG.add('resumed', dtid, k, pid, n)
         if f is not None:
             self._misbehave_pre(f, pid, n, None)
             if f['kind'] == 'wrong':
